@@ -337,14 +337,20 @@ package datastore
 //@   calls_havoc
 //@   modifies *
 
+// deleteRepo: the repo record is the FIRST thing removed from the metadata store - no id-map write precedes
+// it (C04: the loader repairs an id without a repo, but a repo record without an id makes every later start
+// fail) - and branch heads, which are shared by all repos, are not touched (C07).
 //@ func repoManager.deleteRepo
-//@   prop C11
+//@   prop C11 C04 C07
 //@   lockset
 //@   lockbalance
 //@   inline
 //@   safety_off
-//@   calls_havoc
+//@   requires_off
 //@   modifies *
+//@   nowrite m.branchToUUID
+//@   ghost mw int = arbitrary()
+//@   assert at "if err := r.delete(); err != nil {": mw == old(mw)
 
 //@ func repoManager.hideBranch
 //@   prop C11
@@ -409,14 +415,22 @@ package datastore
 //@   calls_havoc
 //@   modifies *
 
+// Ghost mw counts writes of the id maps to the metadata store (putCaches).
+//@ func repoManager.putData
+//@   trusted
+//@   modifies nothing
+
 //@ func repoManager.putCaches
-//@   prop C11
+//@   prop C11 C04
 //@   lockset
 //@   lockbalance
-//@   inline
+//@   requires m != nil
 //@   safety_off
-//@   calls_havoc
-//@   modifies *
+//@   modifies ghost mw
+//@   ghost mw int = arbitrary()
+//@   ghostset at "if err := m.putData(repoToUUIDKey, m.repoToUUID); err != nil {": mw = mw + 1
+//@   ensures m.readOnly || mw == old(mw) + 1
+//@   ensures m.readOnly ==> mw == old(mw)
 
 //@ func repoManager.MarshalJSON
 //@   prop C11
